@@ -3655,6 +3655,11 @@ _BM_INT = {"char": (1, True), "signed char": (1, True), "unsigned char": (1, Fal
            "uint64_t": (8, False), "int64_t": (8, True)}
 
 
+def fn_returns_void(f):
+    qt = (f or {}).get("type", {}).get("qualType", "")
+    return f is None or qt.split("(")[0].strip() == "void"
+
+
 class _Flow(Exception):
     def __init__(self, what, value=None):
         self.what, self.value = what, value
@@ -3678,6 +3683,9 @@ class _ByteMachine:
         self.depth = 0
         self.locals = {}
         self.member_bases = {}          # id(RecordDecl) -> {(region, offset)} of the objects of that record accessed
+        self.max_depth = 4
+        self.boot = False               # True: the run is the first after start-up (block-scope statics hold their initialiser)
+        self.extern = None              # (name, integer arguments) -> value | None of a function defined in another file
         self.poison = False             # True: the undetermined result of an external call may be stored (the bytes become unreadable)
 
     # -- types ---------------------------------------------------------------
@@ -3856,6 +3864,8 @@ class _ByteMachine:
         fr = self.frames[-1]
         if (key, fr) in self.locals:
             return "%s#%d" % (name, fr), self.locals[(key, fr)]
+        if (key, "static") in self.locals:
+            return "%s#static" % name, self.locals[(key, "static")]
         if name in self.tu.vars:
             return name, self.tdesc(self.tu.vars[name].get("type"))
         raise AnalysisError("byte machine: `%s` is not a variable of the function or of the file; unclassifiable" % name)
@@ -3977,7 +3987,12 @@ class _ByteMachine:
             raise AnalysisError("byte machine: conversion %s is outside the vocabulary" % ck)
         if k == "DeclRefExpr":
             if n.get("referencedDecl", {}).get("kind") == "EnumConstantDecl":
-                return self.tu.fold(n)
+                v = self.tu.fold(n)
+                if v is None:               # an enumerator of an enum declared inside a struct (TU.enums lists file-level ones)
+                    if getattr(self, "_enums", None) is None:
+                        self._enums = _enumerators(self.tu)
+                    v = self._enums.get(n["referencedDecl"].get("name"), (None,))[0]
+                return v
             raise AnalysisError("byte machine: `%s` used as a value without conversion; unclassifiable" % ctext(n)[:40])
         if k == "UnaryExprOrTypeTraitExpr":
             if n.get("name") != "sizeof":
@@ -4091,6 +4106,8 @@ class _ByteMachine:
         if f is not None and any(kind(c) == "CompoundStmt" for c in kids(f)):
             return self.run(f, args)
         ps = self.tu.fparams(f) if f is not None else []
+        if self.extern is not None and args and all(isinstance(v, int) for v in args) and not fn_returns_void(f):
+            return self.extern(name, args)      # a value-only function of another file: folded there, or None (not determined)
         for i, v in enumerate(args):
             if isinstance(v, tuple) and v[0] == "p":
                 pt = ps[i].get("type", {}).get("qualType", "") if i < len(ps) else ""
@@ -4100,7 +4117,7 @@ class _ByteMachine:
 
     def run(self, f, args=()):
         ps = self.tu.fparams(f)
-        if len(ps) != len(args) or f.get("variadic") or self.depth >= 4:
+        if len(ps) != len(args) or f.get("variadic") or self.depth >= self.max_depth:
             raise AnalysisError("byte machine: call of %s() cannot be bound; unclassifiable" % f.get("name"))
         self.nframes += 1
         fr = self.nframes
@@ -4188,6 +4205,21 @@ class _ByteMachine:
             for d in kids(st):
                 if kind(d) != "VarDecl":
                     continue
+                if d.get("storageClass") == "static" and self.boot:
+                    # first call after start-up: the object holds its initialiser (zero without one) when first reached
+                    desc = self.tdesc(d.get("type"))
+                    if (("local", d.get("id")), "static") in self.locals:
+                        continue
+                    size = self.sizeof(desc)[0]
+                    init = [c for c in kids(d) if kind(c) is not None]
+                    v = self.tu.fold(init[-1]) if init else 0
+                    if size is None or v is None or (init and (desc is None or desc[0] != "int")):
+                        raise AnalysisError("byte machine: block-scope object `%s` of static storage without a constant scalar "
+                                            "initialiser; unclassifiable" % d.get("name"))
+                    self.locals[(("local", d.get("id")), "static")] = desc
+                    for i in range(size):
+                        self.mem[("%s#static" % d.get("name"), i)] = (v >> (8 * i)) & 0xFF if init else 0
+                    continue
                 if d.get("storageClass") in ("static", "extern"):
                     raise AnalysisError("byte machine: block-scope object `%s` of static storage; unclassifiable" % d.get("name"))
                 fr = self.frames[-1]
@@ -4243,6 +4275,9 @@ class _ByteMachine:
 
 
 _LAYER1_TUS = {}
+
+
+_INSTALLERS = {}        # id(L) -> the L1CTL handlers (R14) and take-over functions (R11) found, for R15
 
 
 def _layer1_tu(L, name):
@@ -4461,6 +4496,7 @@ def r11_takeover(L, tier):
             seen.add((fd.get("_file") or "", fn))
             L.fn(file, fn)
             nfun += 1
+            _INSTALLERS.setdefault(id(L), {}).setdefault("takeovers", []).append((tu, file, fd, rec, flat))
             _takeover_function(L, tu, file, fd, rec, flat, live, pend, flag, pflag, h0, ph0)
     L.floor("C07.R11", "functions that take the pending channel description over (read st_ members, write live ones)", nfun, 1)
 
@@ -4570,11 +4606,12 @@ def _l1ctl_payload(tu, bm, flag):
     return found[0]
 
 
-def _l1ctl_run(tu, fd, rec, frame):
+def _l1ctl_run(tu, fd, rec, frame, before=None, extern=None):
     """the handler evaluated on the byte machine for the message bytes `frame` (offset -> byte; 1 elsewhere); every byte
-    of the channel description is 0xEE before"""
+    of the channel description is 0xEE before (`before`: offset in the description -> the byte it holds instead)"""
     bm = _ByteMachine(tu)
     bm.poison = True
+    bm.extern = extern
     prm = tu.fparams(fd)[0]
     pd = bm._pointee(prm)
     if pd is None or pd[0] != "rec":
@@ -4597,7 +4634,7 @@ def _l1ctl_run(tu, fd, rec, frame):
             return None
         bases = bm.member_bases.get(id(rec), set())
         if len(bases) == 1 and region == next(iter(bases))[0]:
-            return 0xEE
+            return 0xEE if before is None else before.get(off - next(iter(bases))[1])
         return None
     bm.background = background
     bm.run(fd, [("p", "msg", 0, pd)])
@@ -4656,31 +4693,39 @@ def r14_l1ctl_byte_order(L, tier):
             seen.add((fd.get("_file") or "", fn))
             L.fn(file, fn)
             nfun += 1
+            _INSTALLERS.setdefault(id(L), {}).setdefault("handlers", []).append((tu, file, fd, rec, flat, wr))
             _l1ctl_handler(L, tu, file, fd, rec, flat, [g for g in groups if {g[2], g[3]} & wr], flag)
     L.floor("C07.R14", "L1CTL handlers that write the live / pending channel description (DM_EST_REQ, DM_FREQ_REQ)", nfun, 2)
+
+
+def _l1ctl_witness(tu, fd, rec, flag):
+    """(probe run, message(n, hsn, maio, first ARFCN) -> message bytes) of one L1CTL handler: a hopping channel description
+    of n channels with consecutive ARFCNs in network byte order (n = 0: the non-hopping alternative)"""
+    probe = _l1ctl_run(tu, fd, rec, {})                 # every octet 1: hopping, one channel -- shows which records are read
+    po, pf, mh1, sub, mh0, o16 = _l1ctl_payload(tu, probe, flag)
+    fo = po + pf[flag][0]
+    b1 = po + pf[mh1][0]
+
+    def message(n, hsn=L1CTL_HSN, maio=L1CTL_MAIO, arfcn0=L1CTL_ARFCN0):
+        fr = {fo: 1 if n else 0}
+        for i in range(1, pf[flag][1][1]):
+            fr[fo + i] = 0
+        if n:
+            fr.update({b1 + sub["hsn"][0]: hsn, b1 + sub["maio"][0]: maio, b1 + sub["n"][0]: n})
+            for i in range(sub["ma"][1][2]):
+                v = arfcn0 + i if i < n else 0
+                fr[b1 + sub["ma"][0] + 2 * i], fr[b1 + sub["ma"][0] + 2 * i + 1] = v >> 8, v & 0xFF
+        else:
+            fr[po + pf[mh0][0] + o16], fr[po + pf[mh0][0] + o16 + 1] = arfcn0 >> 8, arfcn0 & 0xFF
+        return fr
+    return probe, message
 
 
 def _l1ctl_handler(L, tu, file, fd, rec, flat, groups, flag):
     fname = fd.get("name")
     line = tu.line(fd)
-    probe = _l1ctl_run(tu, fd, rec, {})                 # every octet 1: hopping, one channel -- shows which records are read
-    po, pf, mh1, sub, mh0, o16 = _l1ctl_payload(tu, probe, flag)
-    fo = po + pf[flag][0]
-    b1 = po + pf[mh1][0]
+    probe, message = _l1ctl_witness(tu, fd, rec, flag)
     arf = lambda i: L1CTL_ARFCN0 + i
-
-    def message(n):
-        fr = {fo: 1 if n else 0}
-        for i in range(1, pf[flag][1][1]):
-            fr[fo + i] = 0
-        if n:
-            fr.update({b1 + sub["hsn"][0]: L1CTL_HSN, b1 + sub["maio"][0]: L1CTL_MAIO, b1 + sub["n"][0]: n})
-            for i in range(sub["ma"][1][2]):
-                v = arf(i) if i < n else 0
-                fr[b1 + sub["ma"][0] + 2 * i], fr[b1 + sub["ma"][0] + 2 * i + 1] = v >> 8, v & 0xFF
-        else:
-            fr[po + pf[mh0][0] + o16], fr[po + pf[mh0][0] + o16 + 1] = arf(0) >> 8, arf(0) & 0xFF
-        return fr
     for (what, gflag, gdesc, gh0) in groups:
         dsub = probe.flat_fields(flat[gdesc][1][1])
         if not {"hsn", "maio", "n", "ma"} <= set(dsub) or dsub["ma"][1][0] != "arr":
@@ -4737,6 +4782,282 @@ def _l1ctl_handler(L, tu, file, fd, rec, flat, groups, flag):
              "folded for %d witness messages (hopping N = %s; non-hopping): all as required" % (total, ", ".join(map(str, L1CTL_N)))
              if bad is None else bad + " -- rfch_get_params() returns ARFCNs that are not in the configured mobile allocation",
              bad is None, line)
+
+
+# ------------------------------------------------------------------------------
+# R15: the channel rfch_get_params() selects from the description the L1CTL handlers (and the take-over) leave
+
+R15_N = (1, 2, 3, 5, 33, 64)            # allocation lengths: 2^NBIN - 1 = 1, 3, 3, 7, 63, 127
+R15_PREV = (7, 5, 3, 100)               # (n, HSN, MAIO, first ARFCN) of the channel established before a frequency redefinition
+R15_FRAMES = 8                          # witness frames per scenario (one per value of S, both sides of M' < N, T1 >= 64, the last)
+
+
+def _extern_values(L):
+    """(name, integer arguments) -> the value of a function that another file of firmware layer1 defines (non-static),
+    folded on a byte machine of that file that has no memory but tables nobody writes; None when there is no such
+    definition or the fold leaves the vocabulary (the value stays undetermined -- never guessed)"""
+    d = os.path.join(L.repo, FW_LAYER1)
+    srcs, cache = {}, {}
+
+    def extern(name, args):
+        key = (name, tuple(args))
+        if key in cache:
+            return cache[key]
+        if not srcs:
+            for x in sorted(os.listdir(d)):
+                if x.endswith(".c"):
+                    with open(os.path.join(d, x), errors="replace") as fh:
+                        srcs[x] = strip_comments(fh.read())
+        v = None
+        pat = re.compile(r"^[A-Za-z_][\w \t\*]*\b%s\s*\([^;{}]*\)\s*\{" % re.escape(name), re.M)
+        for x, src in srcs.items():
+            if not pat.search(src):
+                continue                    # selects the file to parse; what the function is, its AST decides
+            try:
+                tu = _layer1_tu(L, x)
+                f = tu.functions.get(name)
+                if f is None or f.get("storageClass") == "static" or not any(kind(c) == "CompoundStmt" for c in kids(f)):
+                    continue
+                bm = _ByteMachine(tu)
+                bm.background = lambda region, off, tu=tu, bm=bm: _const_table_byte(tu, bm, region, off)
+                v = bm.run(f, list(args))
+            except AnalysisError:
+                v = None
+            break
+        cache[key] = v if isinstance(v, int) else None
+        return cache[key]
+    return extern
+
+
+def _const_table_byte(tu, bm, region, off, cache={}):
+    """byte `off` of the file-level integer array `region` as its initialiser leaves it -- only for an array no function of
+    the translation unit writes, takes the address of or hands on (G.maybe_written); None otherwise"""
+    key = (id(tu), region)
+    if key not in cache:
+        cache[key] = None
+        d = tu.vars.get(region)
+        desc = bm.tdesc(d.get("type")) if d is not None else None
+        init = [c for c in kids(d) if kind(c) not in ("", None) and not kind(c).endswith("Attr")] if d is not None else []
+        if init and desc is not None and desc[0] == "arr" and desc[1] is not None and desc[1][0] == "int" and \
+                d.get("id") not in G.maybe_written(tu, {d.get("id")}):
+            vals = tu.init_value(init[-1])
+            if isinstance(vals, list) and all(v is None or isinstance(v, int) for v in vals):
+                bs = []
+                for i in range(desc[2]):
+                    v = vals[i] if i < len(vals) and vals[i] is not None else 0
+                    bs += [(v >> (8 * j)) & 0xFF for j in range(desc[1][1])]
+                cache[key] = (tu, bs)       # the TU is kept alive: its id stays its own
+    t = cache[key]
+    return t[1][off] if t is not None and 0 <= off < len(t[1]) else None
+
+
+def _desc_bytes(bm, rec, what):
+    """offset -> byte (None: not determined) of the one channel description the machine accessed"""
+    bases = bm.member_bases.get(id(rec), set())
+    if len(bases) != 1:
+        raise AnalysisError("%s: %d objects of the channel description's type are accessed; unclassifiable" % (what, len(bases)))
+    (breg, boff), = bases
+    out = {}
+    for o in range(bm.sizeof(("rec", rec))[0]):
+        v = bm.mem.get((breg, boff + o))
+        out[o] = v if v is not None or bm.background is None else bm.background(breg, boff + o)
+    return out
+
+
+def _rec_background(bm, rec, state, other=None):
+    def background(region, off):
+        bases = bm.member_bases.get(id(rec), set())
+        if len(bases) == 1 and region == next(iter(bases))[0]:
+            return state.get(off - next(iter(bases))[1])
+        return other(region, off) if other is not None else None
+    return background
+
+
+def r15_installed_description(L, spec, tier):
+    """C07.R15 decides, end to end on the firmware side, a necessary condition of the clause "the selected channel is MA[MAI]
+    with MAI computed by the standard algorithm (M, M' = M mod 2^NBIN, T' = T3 mod 2^NBIN, S)" for the channel description AS
+    INSTALLED: whatever members struct l1s_h1 has and whoever derives them (a mask kept next to n, a precomputed table),
+    rfch_get_params() -- the function every Rx/Tx frequency comes from -- must return MA[MAI] of TS 45.002 6.2.3 for the
+    parameters the last L1CTL message configured, on both installation paths:
+      (a) an L1CTL handler that writes the live description (DM_EST_REQ), starting from zeroed static storage;
+      (b) that handler for another channel, then a handler that writes the pending description (DM_FREQ_REQ) and a function
+          that takes the pending description over (l1s_freq_cmd at the starting time).
+    Handlers and take-over functions are the ones R14 / R11 found by who-writes / who-reads over the member declarations.
+    Everything is constant folding on the byte machine (no repository code runs): the handlers on witness messages (N = 1, 2,
+    3, 5, 33, 64; value-only functions of other layer1 files folded from their own source), the bytes of the channel
+    description carried from machine to machine, then rfch_get_params() itself -- generator, tables and all, whatever its
+    signature -- for witness frames (one per value of S, both sides of M' < N, T1 >= 64, the last frame), its result compared
+    with MA[MAI] computed by the checker from spec/hopping.json.  A differing (path, N, FN) is a legal history inside the
+    property's domain on which the phone tunes to another channel than the standard (and the simulator, R3/R7); the members
+    of the live descriptor in which path (b) differs from path (a) for the same parameters are named.  Because only the
+    observable result is compared, a member that is derived correctly on both paths, or not kept at all, is silent.  A step
+    the machine cannot evaluate is ANALYSIS-ERROR."""
+    rule = "C07.R15"
+    live, pend, flag, pflag, h0, ph0, pending_names, live_names = _channel_roles(L)
+    found = _INSTALLERS.get(id(L), {})
+    hl = [h for h in found.get("handlers", []) if live in h[5]]
+    hp = [h for h in found.get("handlers", []) if pend in h[5]]
+    tk = found.get("takeovers", [])
+    if not hl or not hp or not tk:
+        raise AnalysisError("installation paths of the channel description: %d handlers of the live description, %d of the pending "
+                            "one, %d take-over functions found by R14 / R11; unclassifiable" % (len(hl), len(hp), len(tk)))
+    rntable = spec["RNTABLE"]
+    head = _layer1_tu(L, "rfch.c")
+    obs = head.func("rfch_get_params")
+    L.fn(F_RFCH, "rfch_get_params")
+    hb = _ByteMachine(head)
+    hrec, hflat, _ = _channel_record(head, hb)
+    ps = head.fparams(obs)
+    pds = [hb._pointee(p) for p in ps]
+    tix = [i for i, d in enumerate(pds) if d is not None and d[0] == "rec" and {"fn", "t1", "t2", "t3"} <= set(hb.flat_fields(d[1]))]
+    aix = [i for i, d in enumerate(pds) if d == ("int", 2, False)]
+    if len(tix) != 1 or not aix or any(d is None for d in pds):
+        raise AnalysisError("rfch_get_params(): expected a GSM time and pointers to the results, found (%s); unclassifiable" % ", ".join(
+            p.get("type", {}).get("qualType", "?") for p in ps))
+    tf = hb.flat_fields(pds[tix[0]][1])
+    extern = _extern_values(L)
+    hsn, maio = L1CTL_HSN, L1CTL_MAIO
+    size = hb.sizeof(("rec", hrec))[0]
+
+    def observe(state, fn):
+        tm = {"fn": fn, "t1": fn // 1326, "t2": fn % 26, "t3": fn % 51, "tc": (fn // 51) % 8}
+        tb = {}
+        for k, (o, d) in tf.items():
+            if d is None or d[0] != "int" or k not in tm:
+                raise AnalysisError("struct gsm_time member `%s` is not one of fn / t1 / t2 / t3 / tc; unclassifiable" % k)
+            for j in range(d[1]):
+                tb[o + j] = (tm[k] >> (8 * j)) & 0xFF
+        bm = _ByteMachine(head)
+        bm.layouts = hb.layouts
+        bm.boot = True
+        bm.max_depth = 12               # the generator may be split into helpers (no recursion: the step limit bounds it)
+
+        def other(region, off):
+            if region == "<time>":
+                return tb.get(off)
+            if region == "<arfcn>":
+                return 0
+            v = _const_table_byte(head, bm, region, off)
+            if v is None and region in head.vars and region not in rec_regions(bm):
+                # an object of static storage the file writes (a remembered result): first call after start-up, so it holds
+                # its initialiser -- zero without one
+                d = head.vars[region]
+                init = [c for c in kids(d) if kind(c) not in ("", None) and not kind(c).endswith("Attr")]
+                size = bm.sizeof(bm.tdesc(d.get("type")))[0]
+                if d.get("storageClass") != "extern" and size is not None and 0 <= off < size:
+                    if not init:
+                        return 0
+                    f = head.fold(init[-1])
+                    desc = bm.tdesc(d.get("type"))
+                    if f is not None and desc is not None and desc[0] == "int":
+                        return (f >> (8 * off)) & 0xFF
+            return v
+        rec_regions = lambda m: {b[0] for b in m.member_bases.get(id(hrec), set())}
+        bm.background = _rec_background(bm, hrec, state, other)
+        try:
+            bm.run(obs, [("p", "<time>", 0, pds[i]) if i == tix[0] else ("p", "<arfcn>", 0, pds[i]) if i == aix[0] else 0
+                         for i in range(len(ps))])
+            return bm.load(("<arfcn>", 0, ("int", 2, False)))
+        except AnalysisError as e:
+            raise _ObservationSkipped(str(e))
+
+    def members(flat, bmx):
+        sub = bmx.flat_fields(flat[live][1][1])
+        return flat[live][0], {k: (o, d) for k, (o, d) in sub.items() if d is not None}
+
+    try:
+        total = _r15_paths(L, rule, hl, hp, tk, flag, live, size, hb, hflat, observe, members, extern, rntable)
+    except _ObservationSkipped as e:
+        # like R7: no verdict is derived from a fold of rfch_get_params() that leaves the byte machine's vocabulary (or reads
+        # bytes nobody defined); the formula rules (R3, R10) and the installer rules (R11, R14) decide alone
+        L.extra["installed_description_fold"] = {"status": "skipped, rfch_get_params() is outside the byte machine's vocabulary: %s" % e}
+        return
+    L.extra["installed_description_fold"] = {"status": "complete", "results_folded": total}
+    L.floor(rule, "rfch_get_params() results folded on installed channel descriptions (path, N, FN)", total, 2 * len(R15_N) * 4)
+
+
+class _ObservationSkipped(Exception):
+    pass
+
+
+def _r15_paths(L, rule, hl, hp, tk, flag, live, size, hb, hflat, observe, members, extern, rntable):
+    hsn, maio = L1CTL_HSN, L1CTL_MAIO
+    total = 0
+    for (tuA, fileA, fdA, recA, flatA, _w) in hl:
+        nameA = fdA.get("name")
+        _pA, msgA = _l1ctl_witness(tuA, fdA, recA, flag)
+        if bm_size(tuA, recA) != size:
+            raise AnalysisError("the channel description has %d bytes in %s and %d in rfch.c; unclassifiable" % (bm_size(tuA, recA), fileA, size))
+        zero = {o: 0 for o in range(size)}
+        direct = {}
+        bad, k = None, 0
+        for n in R15_N:
+            bm = _l1ctl_run(tuA, fdA, recA, msgA(n, hsn, maio), before=zero, extern=extern)
+            direct[n] = _desc_bytes(bm, recA, nameA)
+            for fn in witness_fns(rntable, hsn, n, False)[:R15_FRAMES - 1] + [FN_LAST]:
+                got = observe(direct[n], fn)
+                mai, s, _ = ref_select(rntable, hsn, maio, n, fn)
+                k += 1
+                if got != L1CTL_ARFCN0 + mai and bad is None:
+                    bad = "N = %d (ARFCN %d..%d), HSN = %d, MAIO = %d: rfch_get_params(FN = %d) returns %d%s, TS 45.002 6.2.3 selects " \
+                        "MA[%d] = %d (S = %d)" % (n, L1CTL_ARFCN0, L1CTL_ARFCN0 + n - 1, hsn, maio, fn, got,
+                                                  " = MA[%d]" % (got - L1CTL_ARFCN0) if 0 <= got - L1CTL_ARFCN0 < n else "", mai, L1CTL_ARFCN0 + mai, s)
+        total += k
+        L.ob(rule, fileA, nameA, "%s() installs a hopping channel description (zeroed static storage before): rfch_get_params() then "
+             "returns MA[MAI] of TS 45.002 6.2.3 for the configured HSN, MAIO, mobile allocation (handler and rfch_get_params() "
+             "folded on the byte machine)" % nameA, "MA[MAI] for each of %d witnesses (N, FN)" % k,
+             "MA[MAI] for each of %d witnesses (N, FN)" % k if bad is None else bad, bad is None, tuA.line(fdA))
+        for (tuB, fileB, fdB, recB, flatB, _w2) in hp:
+            nameB = fdB.get("name")
+            _pB, msgB = _l1ctl_witness(tuB, fdB, recB, flag)
+            for (tuT, fileT, fdT, recT, flatT) in tk:
+                nameT = fdT.get("name")
+                if fdT.get("variadic") or any("*" in (p.get("type", {}).get("qualType") or "") for p in tuT.fparams(fdT)):
+                    raise AnalysisError("%s() takes the pending channel description over and has pointer parameters; unclassifiable" % nameT)
+                bad, k = None, 0
+                pn, ph, pm, pa = R15_PREV
+                for n in R15_N:
+                    bm = _l1ctl_run(tuA, fdA, recA, msgA(pn, ph, pm, pa), before=zero, extern=extern)
+                    st = _desc_bytes(bm, recA, nameA)
+                    bm = _l1ctl_run(tuB, fdB, recB, msgB(n, hsn, maio), before=st, extern=extern)
+                    st = _desc_bytes(bm, recB, nameB)
+                    bm = _ByteMachine(tuT)
+                    bm.extern = extern
+                    bm.background = _rec_background(bm, recT, st)
+                    bm.run(fdT, [1] * len(tuT.fparams(fdT)))
+                    st = _desc_bytes(bm, recT, nameT)
+                    for fn in witness_fns(rntable, hsn, n, False)[:R15_FRAMES - 1] + [FN_LAST]:
+                        got = observe(st, fn)
+                        mai, s, _ = ref_select(rntable, hsn, maio, n, fn)
+                        k += 1
+                        if got != L1CTL_ARFCN0 + mai and bad is None:
+                            lo, sub = members(hflat, hb)
+                            el = hb.sizeof(sub["ma"][1][1])[0] if "ma" in sub and sub["ma"][1][0] == "arr" else None
+                            diff = []
+                            for m, (o, d) in sorted(sub.items()):
+                                span = range(d[1]) if d[0] == "int" else range(n * el) if m == "ma" and el else range(hb.sizeof(d)[0] or 0)
+                                a = [direct[n].get(lo + o + i) for i in span]
+                                b = [st.get(lo + o + i) for i in span]
+                                if a != b:
+                                    val = lambda bs: sum(x << (8 * i) for i, x in enumerate(bs)) if all(isinstance(x, int) for x in bs) else None
+                                    diff.append("`%s.%s` is %s, %s() leaves %s" % (live, m, val(b), nameA, val(a)) if d[0] == "int"
+                                                else "`%s.%s[]` differs" % (live, m))
+                            bad = "%sN = %d (ARFCN %d..), HSN = %d, MAIO = %d: rfch_get_params(FN = %d) returns %d%s, TS 45.002 6.2.3 " \
+                                "selects MA[%d] = %d (S = %d); previous channel N = %d" % (
+                                    "%s for the same parameters; " % "; ".join(diff[:3]) if diff else "",
+                                    n, L1CTL_ARFCN0, hsn, maio, fn, got,
+                                    " = MA[%d]" % (got - L1CTL_ARFCN0) if 0 <= got - L1CTL_ARFCN0 < n else "", mai, L1CTL_ARFCN0 + mai, s, pn)
+                total += k
+                L.ob(rule, fileB, nameB, "%s() -> %s() -> %s() install a hopping channel description (frequency redefinition of an "
+                     "established hopping channel): rfch_get_params() then returns MA[MAI] of TS 45.002 6.2.3 for the HSN, MAIO, "
+                     "mobile allocation of the last message (handlers, take-over and rfch_get_params() folded on the byte machine)" % (
+                         nameA, nameB, nameT), "MA[MAI] for each of %d witnesses (N, FN)" % k,
+                     "MA[MAI] for each of %d witnesses (N, FN)" % k if bad is None else bad, bad is None, tuB.line(fdB))
+    return total
+
+
+def bm_size(tu, rec):
+    return _ByteMachine(tu).sizeof(("rec", rec))[0]
 
 
 # ------------------------------------------------------------------------------
@@ -5443,4 +5764,6 @@ def run(L, tier):
     L.stage(r8_descriptor_writers, L, tier)
     L.stage(r11_takeover, L, tier)
     L.stage(r14_l1ctl_byte_order, L, tier)
+    L.stage(r15_installed_description, L, spec, tier)
     _LAYER1_TUS.pop(id(L), None)
+    _INSTALLERS.pop(id(L), None)
